@@ -1,0 +1,139 @@
+//go:build verif
+
+package dual
+
+// Copyright ©2026 The Gonum Authors. All rights reserved.
+// Use of this source code is governed by a BSD-style
+// license that can be found in the LICENSE file.
+
+// Machine-checked contracts for the dual number arithmetic of this package
+// (verification hook, build tag verif; this file contains comments only).
+// The contract language and the checker are described in /verif/DESIGN.md.
+//
+// A dual number a+a'ϵ (ϵ² = 0) carries a value and a derivative. mulR, mulE
+// are the two components of the product (mulE is the product rule), invR, invE
+// those of the inverse. The functions are specified bit-exactly (same:
+// identical float64 values, the float operations in the order and association
+// of the defining formula); the algebraic laws are lemmas over the same macros
+// in exact (real) arithmetic.
+
+//@ spec mulR(a float64, ae float64, b float64, be float64) float64 = a*b
+//@ spec mulE(a float64, ae float64, b float64, be float64) float64 = a*be + ae*b
+//@ spec invR(a float64, ae float64) float64 = 1/a
+//@ spec invE(a float64, ae float64) float64 = -ae/(a*a)
+
+//@ func Add props: C18
+//@ writes nothing
+//@ ensures same(result.Real, x.Real + y.Real)
+//@ ensures same(result.Emag, x.Emag + y.Emag)
+
+//@ func Sub props: C18
+//@ writes nothing
+//@ ensures same(result.Real, x.Real - y.Real)
+//@ ensures same(result.Emag, x.Emag - y.Emag)
+
+//@ func Mul props: C18
+//@ writes nothing
+//@ ensures same(result.Real, mulR(x.Real, x.Emag, y.Real, y.Emag))
+//@ ensures same(result.Emag, mulE(x.Real, x.Emag, y.Real, y.Emag))
+
+//@ func Inv props: C18
+//@ writes nothing
+//@ ensures same(result.Real, invR(d.Real, d.Emag))
+//@ ensures same(result.Emag, invE(d.Real, d.Emag))
+
+//@ func Scale props: C18
+//@ writes nothing
+//@ ensures same(result.Real, f*d.Real)
+//@ ensures same(result.Emag, f*d.Emag)
+
+// Abs: d itself when the sign bit of the real part is clear, -1*d otherwise.
+//@ func Abs props: C18
+//@ writes nothing
+//@ ensures !math.Signbit(d.Real) ==> same(result.Real, d.Real) && same(result.Emag, d.Emag)
+//@ ensures math.Signbit(d.Real) ==> same(result.Real, -1*d.Real) && same(result.Emag, -1*d.Emag)
+
+// ---- elementary functions: f(a+a'ϵ) = f(a) + f'(a)a'ϵ -------------------------------
+// (math.Exp etc. are the uninterpreted library functions; the clauses say which
+// derivative formula multiplies the ϵ part. tan' = 1+tan², atan' = 1/(1+x²),
+// tanh' = 1-tanh² are stated through the returned real part.)
+
+//@ func Exp props: C18
+//@ writes nothing
+//@ ensures same(result.Real, math.Exp(d.Real))
+//@ ensures same(result.Emag, math.Exp(d.Real)*d.Emag)
+
+//@ func Cos props: C18
+//@ writes nothing
+//@ ensures same(result.Real, math.Cos(d.Real))
+//@ ensures same(result.Emag, (-math.Sin(d.Real))*d.Emag)
+
+// Sin, Tan, Atan at ±0 return the argument itself (f(±0) = ±0, f'(0) = 1).
+//@ func Sin props: C18
+//@ writes nothing
+//@ ensures d.Real == 0 ==> same(result.Real, d.Real) && same(result.Emag, d.Emag)
+//@ ensures !(d.Real == 0) ==> same(result.Real, math.Sin(d.Real)) && same(result.Emag, math.Cos(d.Real)*d.Emag)
+
+//@ func Tan props: C18
+//@ writes nothing
+//@ ensures d.Real == 0 ==> same(result.Real, d.Real) && same(result.Emag, d.Emag)
+//@ ensures !(d.Real == 0) ==> same(result.Emag, (1 + result.Real*result.Real)*d.Emag)
+
+//@ func Atan props: C18
+//@ writes nothing
+//@ ensures d.Real == 0 ==> same(result.Real, d.Real) && same(result.Emag, d.Emag)
+//@ ensures !(d.Real == 0) ==> same(result.Emag, (1/(1 + d.Real*d.Real))*d.Emag)
+
+// Log on the positive finite reals: log' = 1/x.
+//@ func Log props: C18
+//@ floats: ieee
+//@ writes nothing
+//@ ensures d.Real > 0 && !isInf(d.Real) ==> same(result.Real, math.Log(d.Real)) && same(result.Emag, d.Emag/d.Real)
+//@ ensures d.Real < 0 ==> isNaN(result.Real) && isNaN(result.Emag)
+
+// ---- algebraic laws (exact arithmetic) ------------------------------------------
+
+// a*b == b*a
+//@ lemma mul_commutative props: C18
+//@ floats: real
+//@ var a float64, ae float64, b float64, be float64
+//@ goal mulR(a, ae, b, be) == mulR(b, be, a, ae) && mulE(a, ae, b, be) == mulE(b, be, a, ae)
+
+// (a*b)*c == a*(b*c)
+//@ lemma mul_associative props: C18
+//@ floats: real
+//@ var a float64, ae float64, b float64, be float64, c float64, ce float64
+//@ goal mulR(mulR(a, ae, b, be), mulE(a, ae, b, be), c, ce) == mulR(a, ae, mulR(b, be, c, ce), mulE(b, be, c, ce)) && mulE(mulR(a, ae, b, be), mulE(a, ae, b, be), c, ce) == mulE(a, ae, mulR(b, be, c, ce), mulE(b, be, c, ce))
+
+// a*(b+c) == a*b + a*c
+//@ lemma mul_distributes props: C18
+//@ floats: real
+//@ var a float64, ae float64, b float64, be float64, c float64, ce float64
+//@ goal mulR(a, ae, b+c, be+ce) == mulR(a, ae, b, be) + mulR(a, ae, c, ce) && mulE(a, ae, b+c, be+ce) == mulE(a, ae, b, be) + mulE(a, ae, c, ce)
+
+// 1*a == a, ϵ*ϵ == 0
+//@ lemma unit_and_epsilon props: C18
+//@ floats: real
+//@ var a float64, ae float64
+//@ goal mulR(1, 0, a, ae) == a && mulE(1, 0, a, ae) == ae && mulR(0, 1, 0, 1) == 0 && mulE(0, 1, 0, 1) == 0
+
+// a*Inv(a) == 1 when the real part is not 0
+//@ lemma inverse props: C18
+//@ floats: real
+//@ var a float64, ae float64
+//@ hyp a != 0
+//@ goal mulR(a, ae, invR(a, ae), invE(a, ae)) == 1 && mulE(a, ae, invR(a, ae), invE(a, ae)) == 0
+
+// Scale(f, a) == (f+0ϵ)*a
+//@ lemma scale_is_mul_by_real props: C18
+//@ floats: real
+//@ var f float64, a float64, ae float64
+//@ goal mulR(f, 0, a, ae) == f*a && mulE(f, 0, a, ae) == f*ae
+
+// the ϵ part obeys the rules of differentiation: with a = u + u'ϵ, b = v + v'ϵ the product carries
+// (uv)' = uv' + u'v, the inverse (1/u)' = -u'/u² and the quotient a*Inv(b) carries (u/v)' = (u'v - uv')/v²
+//@ lemma derivative_rules props: C18
+//@ floats: real
+//@ var u float64, du float64, v float64, dv float64
+//@ hyp v != 0
+//@ goal mulE(u, du, v, dv) == u*dv + du*v && invE(v, dv) == -dv/(v*v) && mulE(u, du, invR(v, dv), invE(v, dv)) == (du*v - u*dv)/(v*v)
